@@ -31,6 +31,8 @@ pub fn last_restored_count() -> usize {
 
 pub struct Incremental {
     store: Store,
+    /// Global invalidation key of this build.
+    key: String,
     /// Files that must go through the full pipeline.
     miss: HashSet<PathBuf>,
     /// Source contents read during miss computation, reused for parsing.
@@ -74,6 +76,11 @@ impl Incremental {
         let key = global_key(metadata, defines)?;
         let store = Store::open(&metadata.project_dot_build_path().join("cache"), &key);
 
+        // A non-emitting command (`check`, `build --check`) may have refilled
+        // the store under a new key while the outputs on disk still come from
+        // the previous settings, so a key-matched store is not enough.
+        let emit_key_changed = metadata.build_info.emit_key.as_deref() != Some(key.as_str());
+
         let mut miss = HashSet::new();
         let mut inputs = HashMap::new();
         let mut hashes = HashMap::new();
@@ -97,7 +104,9 @@ impl Incremental {
             // examples/ files are never emitted, so output staleness does not
             // apply to them.
             let hit = entry.is_some_and(|x| x.hash == hash && x.fragment.is_some())
-                && (!consider_output || path.example || !Self::dst_is_stale(metadata, path))
+                && (!consider_output
+                    || path.example
+                    || !(emit_key_changed || Self::dst_is_stale(metadata, path)))
                 && !has_selected_test;
             if !hit {
                 miss.insert(path.src.clone());
@@ -125,6 +134,7 @@ impl Incremental {
 
         Some(Incremental {
             store,
+            key,
             miss,
             inputs,
             hashes,
@@ -134,8 +144,15 @@ impl Incremental {
         })
     }
 
-    /// Checked only when emitting and on a key-matched store, so
-    /// `generated_files` is always from the same build environment.
+    /// The global invalidation key this build runs under; recorded in
+    /// `info.toml` by emitting commands.
+    pub fn key(&self) -> &str {
+        &self.key
+    }
+
+    /// Checked only when emitting and when the outputs were emitted under the
+    /// current key, so `generated_files` is always from the same build
+    /// environment.
     fn dst_is_stale(metadata: &Metadata, path: &PathSet) -> bool {
         let Some(generated) = metadata.build_info.generated_files.get(&path.dst) else {
             return true;
